@@ -94,6 +94,13 @@ theorem copy_spec_elsewhere (rb : RB) (dr sr : Rect) (hwf : RBCopy.WF rb) (hxl :
       exact h hh
     rw [if_neg this]
 
+/-- On a well-formed buffer the copy reaches no `abort()` ("unreachable" arms of `make_span` and of the switch) and
+    the model's fuel-bounded loops do not run out. -/
+theorem copy_no_abort (rb : RB) (dr sr : Rect) (hwf : RBCopy.WF rb) (hxl : rb.xlLine = 0) (hxc : rb.xlCol = 0)
+    (hin : Inside rb sr) :
+    (copy Variant.repaired rb dr sr).aborted = rb.aborted ∧ (copy Variant.repaired rb dr sr).fuelOut = rb.fuelOut :=
+  (copy_result rb dr sr hwf hxl hxc hin.1 hin.2.1 hin.2.2.1 hin.2.2.2.1 hin.2.2.2.2).flags
+
 /-! ## Move -/
 
 /-- The rectangle-set computation of the vacated area (`tickit_rectset_add` of the source, `tickit_rectset_subtract`
@@ -130,6 +137,12 @@ theorem move_spec_vacated (rb : RB) (dr sr : Rect) (hwf : RBCopy.WF rb) (hxl : r
   rw [(Rect.memb_iff sr _ _).2 hs, this, hw]
   rfl
 
+theorem move_no_abort (rb : RB) (dr sr : Rect) (hwf : RBCopy.WF rb) (hxl : rb.xlLine = 0) (hxc : rb.xlCol = 0)
+    (hin : Inside rb sr) :
+    (move Variant.repaired rb dr sr).aborted = rb.aborted ∧ (move Variant.repaired rb dr sr).fuelOut = rb.fuelOut := by
+  obtain ⟨rects, hca⟩ := clearArea_returns dr sr hin.2.2.2.2
+  exact (move_result rb dr sr hwf hxl hxc hin.1 hin.2.1 hin.2.2.1 hin.2.2.2.1 hin.2.2.2.2 hca).flags
+
 /-! ## Blit -/
 
 /-- **Blit** overlays exactly the source's non-skipped cells (at the destination's translation, through the
@@ -142,6 +155,11 @@ theorem blit_spec (dst src : RB) (hwf : RBCopy.WF dst) (hsrc : RBCopy.WF src) (h
       (((blit Variant.repaired false dst src).cells l).get c).maskdepth = ((dst.cells l).get c).maskdepth) :=
   let r := blit_result dst src hwf hsrc hl hc
   ⟨r.content, r.wf, r.mask⟩
+
+theorem blit_no_abort (dst src : RB) (hwf : RBCopy.WF dst) (hsrc : RBCopy.WF src) (hl : 0 ≤ src.lines) (hc : 0 ≤ src.cols) :
+    (blit Variant.repaired false dst src).aborted = dst.aborted ∧
+    (blit Variant.repaired false dst src).fuelOut = dst.fuelOut :=
+  (blit_result dst src hwf hsrc hl hc).flags
 
 /-- A skipped source cell leaves the destination cell alone. -/
 theorem blit_spec_skip (dst src : RB) (hwf : RBCopy.WF dst) (hsrc : RBCopy.WF src) (hl : 0 ≤ src.lines) (hc : 0 ≤ src.cols) (L C : Int)
@@ -225,6 +243,19 @@ theorem copy_spec_counterexample_as_found :
   have := h cexRun ⟨0, 1, 2, 3⟩ ⟨0, 3, 2, 3⟩ cexRun_wf rfl rfl (by unfold Inside Rect.Nonempty; decide) 1 3
   rw [copy_misses_cell_as_found.1, copy_misses_cell_as_found.2] at this
   exact absurd this (by decide)
+
+/-- `"d一f"` (a double-width character in columns 1–2) at the start of line 0. -/
+def cexWide : RB := textAt (RB.new 2 6 0 0) 0 0 [0x64, 0xe4, 0xb8, 0x80, 0x66]
+
+/-- With the first repair only (TEXT runs still copied by cutting bytes out of the string), a rectangle whose left
+    edge falls on the right half of a double-width character draws the whole character at the destination: cell
+    (0,1) shows the *left* half of `一` (column 0 of `"一f"`) where the source cell (0,2) showed its right half. -/
+theorem copy_widechar_cut_captured :
+    (absContent (copy Variant.captured cexWide ⟨0, 1, 1, 4⟩ ⟨0, 2, 1, 4⟩) 0 1).same
+      (selfCopyExpect cexWide ⟨0, 1, 1, 4⟩ ⟨0, 2, 1, 4⟩ 0 1) = false ∧
+    (absContent (copy Variant.repaired cexWide ⟨0, 1, 1, 4⟩ ⟨0, 2, 1, 4⟩) 0 1).same
+      (selfCopyExpect cexWide ⟨0, 1, 1, 4⟩ ⟨0, 2, 1, 4⟩ 0 1) = true := by
+  decide +kernel
 
 /-! ## The tie to the source text (regenerated from src/renderbuffer.c on every run, bin/extract.d/33_rbcopy.py) -/
 
